@@ -1,4 +1,4 @@
-import ElvisVerif.Lemmas.TcpConvRound
+import ElvisVerif.Lemmas.TcpConvCalm3
 /-!
 # C01 — towards convergence: the closed system nobody closes
 
@@ -250,10 +250,10 @@ theorem c01_silence_when_done (ia ib : Seq) (ma mb : U16) (simultaneous : Bool) 
        sequence number needs the binary-heap invariant of `std::BinaryHeap` for the list model
        (`Base/ListHeap.lean`; proved only for the array model, `Lemmas/Heap.lean`, and only for total
        preorders — `Segment::cmp` is one only on a window of 2^31 sequence numbers);
-    2. retransmission after loss: the first phase after a timer expiry re-sends the whole queue; the
-       receiver drops what it has (`arrive_data_fwd` covers only data starting exactly at `RCV.NXT`;
-       the cases "entirely old" and "partly old" of the text block are not evaluated forward);
-    3. the handshake states (SYN-SENT / SYN-RECEIVED) and non-empty receive buffers at the start. -/
+    2. (done for *calm* states, `c01_converges_after_loss_partial`: heaps, receive buffers and one-shot
+       queues empty, anything on the retransmission queues) retransmission after loss;
+    3. the handshake states (SYN-SENT / SYN-RECEIVED), non-empty receive buffers and non-empty one-shot
+       queues at the start. -/
 def C01ConvergesFullStatement : Prop :=
   ∀ (ia ib : Seq) (ma mb : U16) (simultaneous : Bool) (sys0 s : Sys) (rs : List Res),
     100 ≤ ma.toNat → 100 ≤ mb.toNat →
@@ -333,6 +333,111 @@ example : ∃ sys0 s : Sys, ∃ rs, ∃ ta tb : Tcb,
           exact ⟨sys0, s, rs, ta, tb, e0, plainRunB_sound _ _ _ e1, ⟨r1, r2⟩,
             ⟨hta, htb, steadyXB_sound _ _ x1, steadyXB_sound _ _ x2⟩, x3, x4, by rw [x5]; decide, by rw [x6]; decide,
             s', e2, k2.1.1, k2.1.2⟩
+        · simp at k2
+      · simp at k1
+    · simp at key
+  · simp at key
+
+/-! ## convergence after loss -/
+
+/-- **C01 convergence after loss** (`_partial`: the starting state is restricted to *calm* states).
+
+    Starting state `s`: any reachable state (file header; MTUs ≥ `SPACE_FOR_HEADERS`, H31) that is *calm*
+    (`Lemmas/TcpConvCalm2.lean`): both endpoints ESTABLISHED with their SYN acknowledged
+    (`SND.UNA ≠ ISS`) and more than `SPACE_FOR_HEADERS` of MTU; reorder heaps, receive buffers and one-shot
+    queues empty; retransmission timers at most RTO.  NOTHING is assumed about what the network did:
+    ANY segments may wait on the retransmission queues, acknowledged by the peer or not, received by the
+    peer or not — data segments and acknowledgments may have been lost, in any number, in both
+    directions —, and ANY amount of text may be unsent on both sides.
+
+    With `unsent ≤ 65535 · n` on both sides, ONE fair round of `2n + 2` phases (`fairRound`: both timers
+    expire, which flags every queue entry for retransmission; the first phase re-sends both queues
+    whole, followed by what the window admits of new data, and the receivers answer what they already
+    have with an ACK and take the rest, in order; then `2n + 1` phases as in `c01_converges_partial`)
+    ends in a `Done` state: everything submitted has been delivered to the peer's application (both
+    directions), all queues and unsent texts are empty, `segments()` returns `[]` on both sides, and
+    every further fair round ends `Done` again with the history unchanged. -/
+theorem c01_converges_after_loss_partial (ia ib : Seq) (ma mb : U16) (simultaneous : Bool) (sys0 s : Sys)
+    (rs : List Res) (hma : SPACE_FOR_HEADERS ≤ ma.toNat) (hmb : SPACE_FOR_HEADERS ≤ mb.toNat)
+    (h0 : Sys.run {} [.open .A ia ma, if simultaneous then .open .B ib mb else .listen .B ib mb] = .ok (sys0, rs))
+    (hrun : PlainRun sys0 s) (h31 : RoomH s) (ta tb : Tcb) (hc : Calm s ta tb)
+    (n : Nat) (wa : ta.outgoing.text.length ≤ 65535 * n) (wb : tb.outgoing.text.length ≤ 65535 * n) :
+    ∃ s' ta' tb', fairRound (2 * n + 2) s = .ok s' ∧ PlainRun s s' ∧ Done s' ta' tb' ∧
+      s'.b.delivered = s'.a.submitted ∧ s'.a.delivered = s'.b.submitted ∧
+      s.a.submitted <+: s'.a.submitted ∧ s.b.submitted <+: s'.b.submitted ∧
+      (∀ x, ∃ s1, s'.step (.emit x) = .ok (s1, .emitted s'.historyLen []) ∧ s1.history = s'.history) ∧
+      (∀ k, ∃ s'' ta'' tb'', fairRound k s' = .ok s'' ∧ Done s'' ta'' tb'' ∧ s''.historyLen = s'.historyLen ∧
+        s''.b.delivered = s''.a.submitted ∧ s''.a.delivered = s''.b.submitted) := by
+  have hg := good_of_reach ia ib ma mb simultaneous sys0 s rs hma hmb h0 hrun h31
+  obtain ⟨s', ta', tb', hf, hr, hg', hd⟩ := fairRound_calm n s ta tb hg hc wa wb
+  obtain ⟨d1, d2⟩ := done_stream hg' ta' tb' hd
+  refine ⟨s', ta', tb', hf, hr, hd, d1, d2, hr.sub .A, hr.sub .B, fun x => done_silent hg' ta' tb' hd x, fun k => ?_⟩
+  obtain ⟨s'', ta'', tb'', hf', _, hg'', hd', hl⟩ := done_fairRound k s' ta' tb' hg' hd
+  obtain ⟨e1, e2⟩ := done_stream hg'' ta'' tb'' hd'
+  exact ⟨s'', ta'', tb'', hf', hd', hl, e1, e2⟩
+
+/-- executable form of `CalmX` -/
+def calmXB (t : Tcb) : Bool :=
+  t.state == .Established && t.incoming.segments.isEmpty && t.incoming.text.isEmpty && t.outgoing.oneshot.isEmpty &&
+  t.snd.una != t.snd.iss && decide (SPACE_FOR_HEADERS < t.mtu.toNat) && decide (t.timeouts.retransmission ≤ RTO)
+
+theorem calmXB_sound (t : Tcb) (h : calmXB t = true) : CalmX t := by
+  unfold calmXB at h
+  simp only [Bool.and_eq_true, beq_iff_eq, List.isEmpty_iff, bne_iff_ne, ne_eq, decide_eq_true_eq] at h
+  obtain ⟨⟨⟨⟨⟨⟨h1, h2⟩, h3⟩, h4⟩, h5⟩, h6⟩, h7⟩ := h
+  exact ⟨h1, h2, h3, h4, h5, h6, h7⟩
+
+/-- handshake completed; A writes 3 bytes and emits them — LOST (history element 3 is never delivered);
+    B writes 2 bytes, emits them (element 4), A receives and reads them and emits its ACK (element 5) —
+    LOST; A's application writes one more byte.  Both retransmission queues are non-empty. -/
+def lossOps : List Op :=
+  [.emit .A, .deliver .B 0, .emit .B, .deliver .A 1, .emit .A, .deliver .B 2,
+   .write .A [1, 2, 3], .emit .A, .write .B [9, 8], .emit .B, .deliver .A 4, .read .A, .emit .A, .write .A [4]]
+
+def lossCheck : Bool :=
+  match Sys.run {} [.open .A 1000 1500, .listen .B 5000 1500] with
+  | .ok (sys0, _) =>
+    match plainRunB sys0 lossOps with
+    | some s =>
+      decide (s.a.submitted.length + 2 < 2147483648) && decide (s.b.submitted.length + 2 < 2147483648) &&
+      (match s.a.tcb, s.b.tcb with
+        | some ta, some tb => calmXB ta && calmXB tb && ta.outgoing.retransmit.length == 1 &&
+            tb.outgoing.retransmit.length == 1 && ta.outgoing.text == [4] && tb.outgoing.text == [] &&
+            s.b.delivered == [] && s.a.delivered == [9, 8]
+        | _, _ => false) &&
+      (match fairRound 4 s with
+        | .ok s' => s'.b.delivered == [1, 2, 3, 4] && s'.a.delivered == [9, 8]
+        | .error _ => false)
+    | none => false
+  | .error _ => false
+
+/-- the hypotheses of `c01_converges_after_loss_partial` hold in that reachable state (`n = 1`): B has received
+    nothing of A's stream, B's data is unacknowledged; the promised round, evaluated, completes both streams -/
+example : ∃ sys0 s : Sys, ∃ rs, ∃ ta tb : Tcb,
+    Sys.run {} [.open .A 1000 1500, if false then .open .B 5000 1500 else .listen .B 5000 1500] = .ok (sys0, rs) ∧
+    PlainRun sys0 s ∧ RoomH s ∧ Calm s ta tb ∧ ta.outgoing.retransmit ≠ [] ∧ tb.outgoing.retransmit ≠ [] ∧
+    s.b.delivered = [] ∧
+    ta.outgoing.text.length ≤ 65535 * 1 ∧ tb.outgoing.text.length ≤ 65535 * 1 ∧
+    ∃ s', fairRound (2 * 1 + 2) s = .ok s' ∧ s'.b.delivered = [1, 2, 3, 4] ∧ s'.a.delivered = [9, 8] := by
+  have key : lossCheck = true := by decide
+  unfold lossCheck at key
+  split at key
+  · rename_i sys0 rs e0
+    split at key
+    · rename_i s e1
+      simp only [Bool.and_eq_true, decide_eq_true_eq] at key
+      obtain ⟨⟨⟨r1, r2⟩, k1⟩, k2⟩ := key
+      split at k1
+      · rename_i ta tb hta htb
+        simp only [Bool.and_eq_true, beq_iff_eq] at k1
+        obtain ⟨⟨⟨⟨⟨⟨⟨x1, x2⟩, x3⟩, x4⟩, x5⟩, x6⟩, x7⟩, x8⟩ := k1
+        split at k2
+        · rename_i s' e2
+          simp only [Bool.and_eq_true, beq_iff_eq] at k2
+          exact ⟨sys0, s, rs, ta, tb, e0, plainRunB_sound _ _ _ e1, ⟨r1, r2⟩,
+            ⟨hta, htb, calmXB_sound _ x1, calmXB_sound _ x2⟩,
+            (fun h => by rw [h] at x3; cases x3), (fun h => by rw [h] at x4; cases x4), x7,
+            by rw [x5]; decide, by rw [x6]; decide, s', e2, k2.1, k2.2⟩
         · simp at k2
       · simp at k1
     · simp at key
